@@ -167,6 +167,14 @@ def witnesses() -> list[dict]:
                {"p/__init__.py": "", "p/d.py": D, "u.py": U, "v.py": V}, kinds=["delete-definer", "restore-definer"])
     s[1]["edits"][0].update({"submodule_of_remaining_package": True, "module": "p.d"})
     out.append({"name": n, "steps": s, "modes": ["normal", "skip"]})
+    # entry-point mode: only main.py is given, a.py and b.py are followed; main.py and a.py change in the same step
+    MAIN = "import a\nx: int = a.f()\n"
+    n, s = raw("entry-chain", {"main.py": MAIN, "a.py": "import b\ndef f() -> int:\n    return b.g()\n", "b.py": "def g() -> int:\n    return 1\nbad: int = 'x'\n"},
+               {"main.py": MAIN + "# 1\n", "a.py": "import b\ndef f() -> int:\n    return b.g()\n# 1\n", "b.py": "def g() -> int:\n    return 1\nbad: int = 'x'\n"},
+               {"main.py": MAIN + "# 2\n", "a.py": "import b\ndef f() -> str:\n    return str(b.g())\n# 2\n", "b.py": "def g() -> int:\n    return 1\nbad: int = 'x'\n"},
+               {"main.py": MAIN + "# 3\n", "a.py": "import b\ndef f() -> int:\n    return b.g()\n", "b.py": "def g() -> int:\n    return 1\nbad: int = 'x'\n"},
+               kinds=["edit-users", "edit-users+signature", "edit-users+signature"])
+    out.append({"name": n, "steps": s, "modes": ["normal"], "targets": ["main.py"]})
     # F7: same size, same second
     n, s = raw("same-second", {"a.py": "x: int = 11\n"}, {"a.py": "x: int = ''\n"}, kinds=["same-size-same-second"])
     out.append({"name": n, "steps": s, "modes": ["normal"], "same_second": {1}})
@@ -178,7 +186,8 @@ def run_job(ctx: Ctx, job: dict) -> dict:
     base = os.path.join(ctx.tmp, f"h-{job['hid']}")
     shutil.rmtree(base, ignore_errors=True)
     os.makedirs(base)
-    spec = {"root": os.path.join(base, "src"), "follow_imports": job["mode"], "steps": job["steps"], "trace": job.get("trace", True)}
+    spec = {"root": os.path.join(base, "src"), "follow_imports": job["mode"], "steps": job["steps"], "trace": job.get("trace", True),
+            "targets": job.get("targets")}
     sp, rp = os.path.join(base, "spec.json"), os.path.join(base, "res.json")
     with open(sp, "w") as f:
         json.dump(spec, f)
@@ -400,7 +409,7 @@ def lines_within(diff: list[str], files: set[str]) -> bool:
 
 
 def replay_of(h: dict, k: int, diff) -> dict:
-    return {"mode": h["mode"], "step": k, "diff": diff, "kind": h["kind"], "name": h.get("name"),
+    return {"mode": h["mode"], "step": k, "diff": diff, "kind": h["kind"], "name": h.get("name"), "targets": h.get("targets"),
             "history": [{"edits": s["edits"], "files": s["files"], "touch": s.get("touch", []), "clock": s["clock"],
                          "recheck": s.get("recheck", False)} for s in h["steps"][:k + 1]]}
 
@@ -424,6 +433,7 @@ def check_outputs(ctx: Ctx, h: dict, count: bool = True) -> tuple[bool, bool]:
                      nontrivial=nontrivial)
             ctx.dist("history_kind", h["kind"])
             ctx.dist("follow_imports", h["mode"])
+            ctx.dist("files_given", "entry points only" if h.get("targets") else "all files (directory)")
             ctx.dist("request", "first-check" if k == 0 else ("recheck" if st.get("recheck") else "check"))
             for e in st["edits"]:
                 ctx.dist("edit_kind", e.get("kind", "none"))
@@ -794,6 +804,17 @@ def watcher_correspondence(ctx: Ctx) -> list[str]:
     from mypy.modulefinder import BuildSource
     from mypy.options import Options
     srv = Server.__new__(Server)
+    # which version of Server._find_changed does the checked tree have?  (probe: the stub-removal input)
+    srv.previous_sources = [BuildSource("b.pyi", "b")]
+    rule = "new" if ("b", "b.py") in srv._find_changed([BuildSource("b.py", "b")], {"b.pyi"})[0] else "old"
+    ctx.coverage["find_changed_rule"] = rule + " (module whose defining file changed is reported)" if rule == "new" else rule
+
+    def dedupe(l):
+        out = []
+        for x in l:
+            if x not in out:
+                out.append(x)
+        return out
     for case in range(ctx.pick(60, 400)):
         mods = [f"m{i}" for i in range(4)]
         pths = [f"q{i}" for i in range(5)]
@@ -811,15 +832,28 @@ def watcher_correspondence(ctx: Ctx) -> list[str]:
         srv.previous_sources = [BuildSource(p, m) for m, p in prev]
         changed, removed = srv._find_changed([BuildSource(p, m) for m, p in cur], set(chp))
         enc = lambda l: ";".join(f"{int(m[1:])}:{int(p[1:])}" for m, p in l) or "-"
-        lines.append(f"M s={enc(cur)} p={enc(prev)} c={','.join(p[1:] for p in chp) or '-'}")
-        expect.append(f"changed={enc(changed)} removed={enc(removed)}")
+        lines.append(f"M rule={rule} s={enc(cur)} p={enc(prev)} c={','.join(p[1:] for p in chp) or '-'}")
+        # update() applies dedupe_modules to the lists; a module reported by two rules appears twice in the real list
+        expect.append(f"changed={enc(dedupe(changed))} removed={enc(dedupe(removed))}")
         desc.append({"sources": cur, "previous": prev, "changed_paths": chp})
         ctx.dist("find_changed_modules", "some" if changed or removed else "none")
     outs = ctx.lean_driver("Driver/C03.lean", lines)
     bad = []
+    def dd(out: str) -> str:
+        parts = []
+        for fld in out.split(" "):
+            k, _, v = fld.partition("=")
+            items = []
+            for x in v.split(";"):
+                if x not in items:
+                    items.append(x)
+            parts.append(k + "=" + ";".join(items))
+        return " ".join(parts)
     for l, e, o, d in zip(lines, expect, outs, desc):
         ctx.count("traces_validated_against_impl")
         ctx.case(("W", l), nontrivial=False)
+        if l.startswith("M "):
+            o = dd(o)
         if e != o:
             bad.append(f"{l}: mypy {e} | model {o} | {d}")
     return bad
@@ -837,6 +871,8 @@ def make_jobs(ctx: Ctx) -> list[dict]:
     for w in witnesses():
         for mode in w["modes"]:
             add("witness", w["name"], w["steps"], mode, same_second=w.get("same_second", frozenset()))
+            if w.get("targets"):
+                jobs[-1]["targets"] = w["targets"]
             if w.get("same_second"):
                 jobs[-1]["same_second"] = sorted(w["same_second"])
     # construct × edit-kind sweep: every scenario × every variant of its defining module, several scenarios per world
@@ -856,7 +892,11 @@ def make_jobs(ctx: Ctx) -> list[dict]:
         add("buildsim", f"{seed}.{i}", buildsim_history(f"c03:{seed}:{i}", ctx.pick(5, 6)), MODES[i % 3])
     for i in range(ctx.pick(12, 100)):
         rng = random.Random(f"c03cat:{seed}:{i}")
-        add("catalog", f"{seed}.{i}", G.catalog_history(rng, ctx.pick(5, 7)), MODES[i % 3])
+        steps = G.catalog_history(rng, ctx.pick(5, 7))
+        add("catalog", f"{seed}.{i}", steps, MODES[i % 3])
+        if MODES[i % 3] == "normal" and i % 2 == 0:
+            # entry-point mode: only the top using modules are given to mypy, the rest is found by following imports
+            jobs[-1]["targets"] = G.entry_targets(steps)
     return jobs
 
 
@@ -959,7 +999,8 @@ def replay(ctx: Ctx, path: str) -> int:
     if "history" not in det:
         print(json.dumps(det, indent=1)[:4000])
         return 0
-    job = {"hid": "replay", "kind": "replay", "name": "replay", "mode": det.get("mode", "normal"), "steps": det["history"], "trace": True}
+    job = {"hid": "replay", "kind": "replay", "name": "replay", "mode": det.get("mode", "normal"), "steps": det["history"], "trace": True,
+           "targets": det.get("targets")}
     h = run_job(ctx, job)
     for k, r in enumerate(h["result"]):
         d, f = r["daemon"], r["full"]
